@@ -139,6 +139,27 @@ static void c13_iteration(long i) {
   fprintf(vh_out, "{\"e\":\"quiet\",\"live\":%ld,\"foreign\":%ld}\n", va.live, va.foreign_free + va.foreign_realloc);
 }
 
+static void c13_over_limit(void) {
+  /* nesting beyond the decoder's limit: what was obtained for the refused level is released like everything else */
+  {
+    static unsigned char deep[3 * (CBOR_MAX_STACK_SIZE + 8)];
+    static const unsigned char op[] = {0x81, 0x9f, 0xc1, 0xbf, 0x5f, 0xa1};
+    for (unsigned k = 0; k < sizeof op; k++) {
+      size_t dn = 0;
+      for (int j = 0; j < CBOR_MAX_STACK_SIZE + 1; j++) {
+        unsigned char o = (k == 4 && j < CBOR_MAX_STACK_SIZE) ? 0x81 : op[k];   /* chunked string: only the innermost level */
+        deep[dn++] = o;
+        if (o == 0xbf || o == 0xa1) deep[dn++] = 0x00;
+      }
+      struct cbor_load_result dr;
+      cbor_item_t* dit = NULL;
+      OP("load_over_limit", 0, dit = cbor_load(deep, dn, &dr));
+      if (dit) OP("decref", 0, cbor_decref(&dit));
+    }
+  }
+  fprintf(vh_out, "{\"e\":\"quiet\",\"live\":%ld,\"foreign\":%ld}\n", va.live, va.foreign_free + va.foreign_realloc);
+}
+
 /* ------------------------------------------------------------------ C06 */
 enum { SC_LOAD, SC_COPY, SC_SER, SC_BUILD, SC_PUSH, SC_MAPADD, SC_CHUNK, SC_NEWTAG, SC_SET, SC_SERNULL, SC_MOVEPUSH, SC_TAGSET, SC_REPLACE, NSC };
 static const char* sc_name[] = {"load", "copy", "serialize_alloc", "build", "push", "map_add", "add_chunk", "build_tag", "array_set", "serialize_alloc", "push", "push", "push"};
@@ -342,7 +363,9 @@ int main(int argc, char** argv) {
   signal(SIGSEGV, on_signal);
 #endif
   long N = atol(argv[2]);
-  if (!strcmp(argv[1], "c13") || !strcmp(argv[1], "c13arena")) {
+  if (!strcmp(argv[1], "c13limit")) {
+    c13_over_limit(); /* (run against a build with a small CBOR_MAX_STACK_SIZE: the logs stay short) */
+  } else if (!strcmp(argv[1], "c13") || !strcmp(argv[1], "c13arena")) {
     if (!strcmp(argv[1], "c13arena")) va_use_arena((size_t)1 << 30);
     for (long i = 0; i < N; i++) { c13_iteration(i); va_arena_reset(); }
   } else {
